@@ -222,7 +222,7 @@ Proof.
   cbv zeta.
   destruct (rows_fit (find_table (k_tabs k) COLUMNS_TABLE_NAME) _) as [[|]| |];
   try (destruct (rows_fit (find_table (k_tabs k) TABLES_TABLE_NAME) _) as [[|]| |]);
-  try (destruct (rows_fit (find_table (k_tabs k) VALIDATION_TABLE_NAME) _) as [[|]| |]);
+  try (destruct (vrows_fit tn (find_table (k_tabs k) VALIDATION_TABLE_NAME) _) as [[|]| |]);
   try early.
   destruct (pkg_insert prof k COLUMNS_TABLE_NAME _) as [k1 r1] eqn:E1.
   apply insert_fin in E1.
